@@ -21,3 +21,35 @@ package mocker
 //@   ensures last_sticks: int(old(c.curNum)) >= len(c.results) - 1 ==> result == c.results[len(c.results) - 1]
 //@   ensures past_end_sticks: int(old(c.curNum)) >= len(c.results) - 1 && len(c.results) > 1 ==> int(c.curNum) >= len(c.results)
 //@   ensures inv_kept: matcher_inv(c)
+
+// ---- C08: variable mocks -------------------------------------------------------------------------------------------
+// Ghost history of a variable mocker: whether it has ever overwritten the variable, and the value
+// the variable held before the first overwrite.
+
+//@ ghost var var_everset map[*defaultVarMocker]bool
+//@ ghost var var_first map[*defaultVarMocker]interface{}
+//@ pure func var_target_ok(m *defaultVarMocker) bool = m != nil && rv_valid(m.targetValue) && rv_kind(m.targetValue) == reflect.Ptr && !rv_isnil(m.targetValue)
+//@ pure func var_addr(m *defaultVarMocker) uintptr = rv_pointer(m.targetValue)
+// the remembered original is the value before the FIRST overwrite; a mocker that never set anything remembers nothing
+//@ pure func var_inv(m *defaultVarMocker) bool = (var_everset[m] ==> m.originValue == var_first[m]) && (!var_everset[m] ==> m.originValue == nil)
+
+//@ func (m *defaultVarMocker) doSet
+//@   props C08
+//@   requires target: var_target_ok(m)
+//@   requires inv: var_inv(m)
+//@   assigns m.originValue, m.mockValue, varval[var_addr(m)], var_everset[m], var_first[m]
+//@   ghost_set var_first[m] = ite(old(var_everset[m]), old(var_first[m]), old(varval[var_addr(m)]))
+//@   ghost_set var_everset[m] = true
+//@   ensures takes_effect: varval[var_addr(m)] == value
+//@   ensures first_value_remembered: var_inv(m)
+//@   panics_only_if bad_value: value == nil || rv_type(value_of(value)) != rt_elem(rv_type(m.targetValue))
+//@   ensures_on_panic untouched: varval[var_addr(m)] == old(varval[var_addr(m)])
+
+//@ func (m *defaultVarMocker) Cancel
+//@   props C08
+//@   requires target: var_target_ok(m)
+//@   requires inv: var_inv(m)
+//@   assigns m.canceled, varval[var_addr(m)]
+//@   ensures restores_pre_mock_value: old(var_everset[m]) ==> varval[var_addr(m)] == old(var_first[m])
+//@   ensures never_set_untouched: !old(var_everset[m]) ==> varval[var_addr(m)] == old(varval[var_addr(m)])
+//@   ensures canceled: m.canceled
